@@ -1,22 +1,44 @@
-//! C15 harness: LineIndex / SourceCode queries, UniversalNewlineIterator, TextRange algebra.
+//! C15 harness: LineIndex / SourceCode / SourceFile queries, UniversalNewlineIterator and Line,
+//! LineEnding, OneIndexed, TextSize and TextRange algebra, slicing by TextRange.
 use pvh::*;
 use rustpython_parser_vendored::source_location::newlines::{
-    Line, NewlineWithTrailingNewline, UniversalNewlineIterator,
+    find_newline, Line, LineEnding, NewlineWithTrailingNewline, StrExt, UniversalNewlineIterator,
 };
-use rustpython_parser_vendored::source_location::{LineIndex, OneIndexed, SourceCode};
-use rustpython_parser_vendored::text_size::{TextRange, TextSize};
+use rustpython_parser_vendored::source_location::{
+    LineIndex, OneIndexed, SourceCode, SourceFileBuilder, SourceLocation,
+};
+use rustpython_parser_vendored::text_size::{TextLen, TextRange, TextSize};
+use std::ops::{Bound, RangeBounds};
 
-fn show_line(l: &Line) -> String {
-    format!(
-        "{}:{}:{}",
-        u32::from(l.start()),
-        hex(l.as_full_str().as_bytes()),
-        hex(l.as_str().as_bytes())
-    )
+fn ts(x: u32) -> TextSize {
+    TextSize::from(x)
+}
+
+fn show_size(s: Option<TextSize>) -> String {
+    opt(s, |s| u32::from(s).to_string())
 }
 
 fn show_range(r: Option<TextRange>) -> String {
     opt(r, |r| format!("{}..{}", u32::from(r.start()), u32::from(r.end())))
+}
+
+fn show_str(s: Option<String>) -> String {
+    opt(s, |s| hex(s.as_bytes()))
+}
+
+/// offset:full text:text without terminator:end:full_end:range:full_range:full_text_len
+fn show_line(l: &Line) -> String {
+    format!(
+        "{}:{}:{}:{}:{}:{}:{}:{}",
+        u32::from(l.start()),
+        hex(l.as_full_str().as_bytes()),
+        hex(l.as_str().as_bytes()),
+        show_size(guard(|| l.end())),
+        show_size(guard(|| l.full_end())),
+        show_range(guard(|| l.range())),
+        show_range(guard(|| l.full_range())),
+        u32::from(l.full_text_len()),
+    )
 }
 
 fn lineidx(text: &str) -> String {
@@ -58,30 +80,129 @@ fn lineidx(text: &str) -> String {
             opt(tx, |t| hex(t.as_bytes()))
         ));
     }
+    // SourceCode::up_to / after at EVERY offset 0..=len+1 (inside characters and past the end too)
+    let mut cuts = Vec::new();
+    for o in 0..=text.len() + 1 {
+        let off = TextSize::from(o as u32);
+        cuts.push(format!(
+            "{}/{}",
+            show_str(guard(|| code.up_to(off).to_string())),
+            show_str(guard(|| code.after(off).to_string()))
+        ));
+    }
+    // SourceFile: lazily built index, index handed to the builder, index set afterwards
+    let describe = |sf: &rustpython_parser_vendored::source_location::SourceFile| -> String {
+        let sc = sf.to_source_code();
+        let cnt = sc.line_count();
+        let st: Vec<String> = (0..cnt)
+            .map(|r| show_size(guard(|| sc.line_start(OneIndexed::from_zero_indexed(r as u32)))))
+            .collect();
+        let first = guard(|| sf.slice(sc.line_range(OneIndexed::MIN)).to_string());
+        format!(
+            "{}:{}:{}:{}:{}",
+            cnt,
+            st.join(","),
+            show_str(first),
+            hex(sf.source_text().as_bytes()),
+            hex(sf.name().as_bytes())
+        )
+    };
+    let sf1 = SourceFileBuilder::new("f.py", text).finish();
+    let sf2 = SourceFileBuilder::new("f.py", text)
+        .line_index(index.clone())
+        .finish();
+    let mut b3 = SourceFileBuilder::new("f.py", text);
+    b3.set_line_index(index.clone());
+    let sf3 = b3.finish();
+    let same = sf1 == sf2 && sf2 == sf3 && code == sf1.to_source_code();
     format!(
-        "starts={:?} count={} locs={} lines={}",
+        "starts={:?} count={} locs={} lines={} cuts={} text={} dlen={} file={}|{}|{}|{}",
         starts,
         n,
         locs.join(";"),
-        lines.join(";")
+        lines.join(";"),
+        cuts.join(";"),
+        hex(code.text().as_bytes()),
+        index.len(), // Deref<Target = [TextSize]>
+        describe(&sf1),
+        describe(&sf2),
+        describe(&sf3),
+        same
+    )
+}
+
+fn show_ending(e: LineEnding) -> String {
+    let name = match e {
+        LineEnding::Lf => "Lf",
+        LineEnding::Cr => "Cr",
+        LineEnding::CrLf => "CrLf",
+    };
+    let d: &str = &e; // Deref
+    format!(
+        "{},{},{},{},{}",
+        name,
+        hex(e.as_str().as_bytes()),
+        e.len(),
+        u32::from(e.text_len()),
+        hex(d.as_bytes())
     )
 }
 
 fn nliter(text: &str, off: u32, ops: &str) -> String {
-    let mut it = UniversalNewlineIterator::with_offset(text, TextSize::from(off));
+    let mut it = match guard(|| UniversalNewlineIterator::with_offset(text, TextSize::from(off))) {
+        Some(it) => it,
+        None => return "overflow".into(),
+    };
     let mut items = Vec::new();
     for op in ops.chars() {
         let r = if op == 'f' { it.next() } else { it.next_back() };
         items.push(opt(r, |l| show_line(&l)));
     }
+    let last = opt(it.last(), |l| show_line(&l));
     let tl: Vec<String> = NewlineWithTrailingNewline::with_offset(text, TextSize::from(off))
         .map(|l| show_line(&l))
         .collect();
-    format!("{} trailing={}", items.join(";"), tl.join(";"))
+    let ext: Vec<String> = text.universal_newlines().map(|l| show_line(&l)).collect();
+    let from: Vec<String> = NewlineWithTrailingNewline::from(text)
+        .map(|l| show_line(&l))
+        .collect();
+    let find = opt(find_newline(text), |(p, e)| format!("{},{}", p, show_ending(e)));
+    format!(
+        "{} last={} trailing={} ext={} from={} find={}",
+        items.join(";"),
+        last,
+        tl.join(";"),
+        ext.join(";"),
+        from.join(";"),
+        find
+    )
+}
+
+/// `Line::new` with an arbitrary text and offset (also offsets where the queries overflow u32)
+fn line_ops(text: &str, off: u32, cmp: &str) -> String {
+    let l = Line::new(text, ts(off));
+    let d: &str = &l; // Deref
+    format!(
+        "{} deref={} eq={},{},{},{} same={}",
+        show_line(&l),
+        hex(d.as_bytes()),
+        l == cmp,
+        cmp == l,
+        l == text,
+        l == l.as_str(),
+        l == Line::new(text, ts(off))
+    )
+}
+
+fn show_bound(b: Bound<&TextSize>) -> String {
+    match b {
+        Bound::Included(x) => format!("I{}", u32::from(*x)),
+        Bound::Excluded(x) => format!("E{}", u32::from(*x)),
+        Bound::Unbounded => "U".into(),
+    }
 }
 
 fn range_ops(a: u32, b: u32, c: u32, d: u32, text: &str) -> String {
-    let ts = TextSize::from;
     let r = match guard(|| TextRange::new(ts(a), ts(b))) {
         Some(r) => r,
         None => return "new=none".into(),
@@ -95,6 +216,44 @@ fn range_ops(a: u32, b: u32, c: u32, d: u32, text: &str) -> String {
         std::cmp::Ordering::Equal => 0,
         std::cmp::Ordering::Greater => 1,
     };
+    let k = ts(c);
+    let addops = [
+        guard(|| r + k),
+        guard(|| r + &k),
+        guard(|| &r + k),
+        guard(|| {
+            let mut x = r;
+            x += k;
+            x
+        }),
+    ];
+    let subops = [
+        guard(|| r - k),
+        guard(|| r - &k),
+        guard(|| &r - k),
+        guard(|| {
+            let mut x = r;
+            x -= k;
+            x
+        }),
+    ];
+    let owned = text.to_string();
+    let imut = guard(|| {
+        let mut s = text.to_string();
+        {
+            let m: &mut str = &mut s.as_mut_str()[r];
+            m.make_ascii_uppercase();
+        }
+        s
+    });
+    let simut = guard(|| {
+        let mut s = text.to_string();
+        {
+            let m: &mut str = &mut s[r];
+            m.make_ascii_uppercase();
+        }
+        s
+    });
     let fields = vec![
         format!("len={}", u32::from(r.len())),
         format!("empty={}", r.is_empty()),
@@ -109,12 +268,154 @@ fn range_ops(a: u32, b: u32, c: u32, d: u32, text: &str) -> String {
         format!("ord={}", ord),
         format!("at={}", show_range(guard(|| TextRange::at(ts(a), ts(c))))),
         format!("upto={}", show_range(Some(TextRange::up_to(ts(b))))),
+        format!("substart={}", show_range(guard(|| r.sub_start(k)))),
+        format!("addstart={}", show_range(guard(|| r.add_start(k)))),
+        format!("subend={}", show_range(guard(|| r.sub_end(k)))),
+        format!("addend={}", show_range(guard(|| r.add_end(k)))),
         format!(
-            "index={}",
-            opt(guard(|| text[r].to_string()), |s| hex(s.as_bytes()))
+            "addop={}",
+            addops.iter().map(|x| show_range(*x)).collect::<Vec<_>>().join("|")
         ),
+        format!(
+            "subop={}",
+            subops.iter().map(|x| show_range(*x)).collect::<Vec<_>>().join("|")
+        ),
+        format!(
+            "bounds={},{}",
+            show_bound(r.start_bound()),
+            show_bound(r.end_bound())
+        ),
+        format!("rbcontains={}", RangeBounds::contains(&r, &ts(c))),
+        format!("index={}", show_str(guard(|| text[r].to_string()))),
+        format!("sindex={}", show_str(guard(|| owned[r].to_string()))),
+        format!("imut={}", show_str(imut)),
+        format!("simut={}", show_str(simut)),
     ];
     fields.join(" ")
+}
+
+fn size_ops(a: u32, b: u32, text: &str) -> String {
+    let (x, y) = (ts(a), ts(b));
+    let adds = [
+        guard(|| x + y),
+        guard(|| x + &y),
+        guard(|| &x + y),
+        guard(|| &x + &y),
+        guard(|| {
+            let mut z = x;
+            z += y;
+            z
+        }),
+        guard(|| {
+            let mut z = x;
+            z += &y;
+            z
+        }),
+    ];
+    let subs = [
+        guard(|| x - y),
+        guard(|| x - &y),
+        guard(|| &x - y),
+        guard(|| &x - &y),
+        guard(|| {
+            let mut z = x;
+            z -= y;
+            z
+        }),
+        guard(|| {
+            let mut z = x;
+            z -= &y;
+            z
+        }),
+    ];
+    let join = |v: &[Option<TextSize>]| v.iter().map(|s| show_size(*s)).collect::<Vec<_>>().join("|");
+    let owned = text.to_string();
+    let chars: Vec<String> = text
+        .chars()
+        .map(|c| u32::from(TextSize::of(c)).to_string())
+        .collect();
+    let sums = [
+        guard(|| [x, y].iter().sum::<TextSize>()),
+        guard(|| [x, y, x].into_iter().sum::<TextSize>()),
+        guard(|| text.chars().map(TextSize::of).sum::<TextSize>()),
+        guard(|| Vec::<TextSize>::new().into_iter().sum::<TextSize>()),
+    ];
+    format!(
+        "add={} sub={} cadd={} csub={} of={},{},{} ofc={} sum={} u32={},{} try={}",
+        join(&adds),
+        join(&subs),
+        show_size(x.checked_add(y)),
+        show_size(x.checked_sub(y)),
+        u32::from(TextSize::of(text)),
+        u32::from(TextSize::of(&owned)),
+        u32::from(text.text_len()),
+        if chars.is_empty() { "-".to_string() } else { chars.join(",") },
+        join(&sums),
+        x.to_u32(),
+        x.to_usize(),
+        opt(TextSize::try_from(a as usize + b as usize).ok(), |s| u32::from(s).to_string()),
+    )
+}
+
+fn oneidx(v: u64, rhs: u32) -> String {
+    let show = |o: OneIndexed| o.get().to_string();
+    let try_ = match OneIndexed::try_from_zero_indexed(v as usize) {
+        Ok(o) => show(o),
+        Err(e) => format!("err{}", e),
+    };
+    let dflt = SourceLocation::default();
+    let head = format!(
+        "try={} min={} max={} dflt={},{}",
+        try_,
+        show(OneIndexed::MIN),
+        show(OneIndexed::MAX),
+        show(dflt.row),
+        show(dflt.column)
+    );
+    if v > u32::MAX as u64 {
+        return head;
+    }
+    let v32 = v as u32;
+    let new = OneIndexed::new(v32);
+    let fzi = OneIndexed::from_zero_indexed(v32);
+    format!(
+        "{} new={} fzi={} back={} one={}",
+        head,
+        opt(new, show),
+        show(fzi),
+        fzi.to_zero_indexed(),
+        opt(new, |o| format!(
+            "{},{},{},{},{},{}",
+            o.to_zero_indexed(),
+            o.to_zero_indexed_usize(),
+            o.to_usize(),
+            show(o.saturating_add(rhs)),
+            show(o.saturating_sub(rhs)),
+            show(OneIndexed::from_zero_indexed(o.to_zero_indexed()))
+        ))
+    )
+}
+
+/// every pair (a, b) with 0 <= a, b <= len + 1 sliced through SourceCode::slice (and
+/// SourceFile::slice, shown only if it differs)
+fn slices(text: &str) -> String {
+    let index = LineIndex::from_source_text(text);
+    let code = SourceCode::new(text, &index);
+    let sf = SourceFileBuilder::new("f.py", text).finish();
+    let n = text.len() as u32 + 1;
+    let mut out = Vec::new();
+    for a in 0..=n {
+        for b in 0..=n {
+            let s1 = show_str(guard(|| code.slice(TextRange::new(ts(a), ts(b))).to_string()));
+            let s2 = show_str(guard(|| sf.slice(TextRange::new(ts(a), ts(b))).to_string()));
+            if s1 == s2 {
+                out.push(s1);
+            } else {
+                out.push(format!("{}~{}", s1, s2));
+            }
+        }
+    }
+    out.join(";")
 }
 
 fn handle(ws: &[&str]) -> String {
@@ -126,6 +427,10 @@ fn handle(ws: &[&str]) -> String {
         },
         ["nliter", t, off, ops] => match (unhex_str(t), off.parse::<u32>()) {
             (Some(t), Ok(o)) => nliter(&t, o, if *ops == "-" { "" } else { ops }),
+            _ => bad(),
+        },
+        ["line", t, off, c] => match (unhex_str(t), off.parse::<u32>(), unhex_str(c)) {
+            (Some(t), Ok(o), Some(c)) => line_ops(&t, o, &c),
             _ => bad(),
         },
         ["range", a, b, c, d, t] => {
@@ -140,6 +445,18 @@ fn handle(ws: &[&str]) -> String {
                 _ => bad(),
             }
         }
+        ["size", a, b, t] => match (a.parse::<u32>(), b.parse::<u32>(), unhex_str(t)) {
+            (Ok(a), Ok(b), Some(t)) => size_ops(a, b, &t),
+            _ => bad(),
+        },
+        ["oneidx", v, rhs] => match (v.parse::<u64>(), rhs.parse::<u32>()) {
+            (Ok(v), Ok(r)) => oneidx(v, r),
+            _ => bad(),
+        },
+        ["slices", t] => match unhex_str(t) {
+            Some(t) => slices(&t),
+            None => bad(),
+        },
         _ => bad(),
     }
 }
